@@ -62,6 +62,54 @@ Section ReceiverSpec.
 End ReceiverSpec.
 Arguments more_msgs {A B}. Arguments more_reply {U}. Arguments final_reply {A B U}.
 
+(* ---------- a variant of the sender that gives up after [cap] consecutive oversize retries ---------- *)
+(* NOT the model of the code: the loop of Model/SyncSplit.v with a counter of consecutive XOversize answers
+   (reset when a message gets through) and a clean failure when it exceeds [cap].  It exists to be refuted
+   (C09_retry_cap_refuted): rescaling shrinks the NUMBER of objects per message, at best by a tenth per
+   retry, so a message headed by a few large objects needs a number of retries that grows with the
+   logarithm of the number of small objects behind them. *)
+Section Capped.
+  Variables A B U PS : Type.
+  Variable xmit : list A -> list B -> bool -> xres.
+  Variable peer : PS -> list A -> list B -> bool -> PS * option (reply U).
+  Variable rc : Z -> Z -> Z -> Z -> option (Z * Z).
+  Variable cap : nat.
+
+  Fixpoint sync_loop_capped (fuel : nat) (ps : list A) (cs : list B) (pp cp : Z) (st : PS) (retries : nat) : outcome A B U PS :=
+    match fuel with
+    | O => OutOfFuel []
+    | S fuel' =>
+      if negb (slice_ok ps pp && slice_ok cs cp) then Panic [] else
+      let mp := take pp ps in
+      let mc := take cp cs in
+      let more := (pp <? len ps) || (cp <? len cs) in
+      match xmit mp mc more with
+      | XOk =>
+        let '(st', r) := peer st mp mc more in
+        let c := (mp, mc, more) in
+        match r with
+        | None => Failed FPeerErr [c] st'
+        | Some rp =>
+          if negb more then Delivered [c] (r_update rp) st'
+          else if negb (is_nil (r_update rp)) || negb (Bool.eqb (r_more rp) more)
+          then Failed FPeerProto [c] st'
+          else push c (sync_loop_capped fuel' (drop pp ps) (drop cp cs) (clamp pp (drop pp ps)) (clamp cp (drop cp cs)) st' 0)
+        end
+      | XOversize maxLen msgLen =>
+        if (cap <? S retries)%nat then Failed FSplit [] st      (* "message oversized after cap retries" *)
+        else match rc pp cp maxLen msgLen with
+        | None => Failed FSplit [] st
+        | Some (pp', cp') => sync_loop_capped fuel' ps cs (clamp pp' ps) (clamp cp' cs) st (S retries)
+        end
+      | XOther => Failed FSplit [] st
+      end
+    end.
+
+  Definition synchronize_capped (fuel : nat) (pods : list A) (ctrs : list B) (st : PS) : outcome A B U PS :=
+    sync_loop_capped fuel pods ctrs (len pods) (len ctrs) st 0.
+End Capped.
+Arguments sync_loop_capped {A B U PS}. Arguments synchronize_capped {A B U PS}.
+
 (* ---------- one request per registration ---------- *)
 (* nothing follows a message not flagged More: the request is complete with it, whatever the plugin
    answers to it *)
